@@ -224,6 +224,7 @@ def index_specs(h, k, r, full):
         out.append({'tuple': [99] * (len(dims) + 1)})
         out.append({'tuple': []})
     else:
+        out.append({'tuple': []})                      # the valid index of a series of scalars (`time`)
         out.append({'tuple': [0]})
         out.append({'tuple': [0, 0]})
         out.append({'tuple': [-1]})
@@ -333,6 +334,12 @@ def run_cases(r, quick):
                         res = call_get(h, k, spec, E)
                         res_oracle = get_oracle(h, k, spec, res, E)
                         run['gets'].append({'key': k, 'index': spec, 'res': res, 'oracle': res_oracle})
+                # every attribute of a History returned by start() is a series (a list of per-dump records): `get` can only serve those
+                for k in list(h.__dict__.keys()):
+                    if k != 'store_best_only' and not k.startswith('_') and not isinstance(getattr(h, k), list):
+                        run['gets'].append({'key': k, 'index': {'tuple': []}, 'res': {'err': 'not-a-series'},
+                                            'oracle': 'attribute `%s` of the History returned by start() is a %s, not a series of records: '
+                                                      'get(%r, ()) cannot return it' % (k, type(getattr(h, k)).__name__, k)})
                 run['saveload'] = saveload_check(h, '%s_%d' % (name, int(sbo)), E)
                 run['hist'] = run['saveload']['before']
                 run['unknown'] = E.unknown
